@@ -1,4 +1,5 @@
 import MpVerif.C19.LemmasSched
+import MpVerif.Gen.C19Names
 /-!
 # C19 — property theorems
 
@@ -353,5 +354,200 @@ theorem C19_generic_names_distinct (stub : Name) (i j : Nat) (h : genericName st
   simp only [List.cons.injEq, true_and] at h1
   have h2 := List.append_cancel_right h1
   exact dec_inj h2
+
+/-! ### non-vacuity: concrete non-trivial instances meeting all hypotheses of the conditional theorems -/
+
+/-- shape of a real run: row `c` (cell 0) and column `x` (cell 1); `x` is copied to the flat variable 10; `c` is
+distributed to an auxiliary variable 11 (`c`), a functional constraint 12 (`c_2_`) and a linear constraint 13 (`c_3_`);
+12 is converted into 14 (`c_2_`) and 15 (`c_2__2_`).  Delivered: constraints 13, 14, 15, variables 10, 11. -/
+def exInit : St := (({} : St).set 0 { s := ['c'], n := 0 }).set 1 { s := ['x'], n := 0 }
+def exOps : List Op := [Op.copy 1 10, Op.distr 0 11, Op.distr 0 12, Op.distr 0 13, Op.distr 12 14, Op.distr 12 15]
+
+theorem exInit_roots (r : Nat) (h : (exInit.get r).s ≠ []) : r = 0 ∨ r = 1 := by
+  by_cases h1 : r = 1
+  · exact Or.inr h1
+  · by_cases h0 : r = 0
+    · exact Or.inl h0
+    · exfalso; apply h
+      simp [exInit, get_set_ne _ _ (Ne.symm h1), get_set_ne _ _ (Ne.symm h0), empty_get]
+
+theorem exEdges : edges exInit exOps =
+    [⟨1, .plain, 10⟩, ⟨0, .plain, 11⟩, ⟨0, .num 2, 12⟩, ⟨0, .num 3, 13⟩, ⟨12, .plain, 14⟩, ⟨12, .num 2, 15⟩] := by
+  simp [exInit, exOps, edges, stepE, step_s, step_n, Op.dst, Op.src, Op.lab, get_set_eq, get_set_ne, empty_get, cntLab]
+
+/-- all hypotheses of `C19_unique_cons_partial`, `C19_unique_vars_partial`, `C19_nonempty_partial`,
+`C19_nonempty_topological`, `C19_nonempty_delivered`, `C19_derived` hold together on a non-trivial run
+(two roots, six operations, two conversion levels, three delivered constraints and two delivered variables with
+five different non-empty names) -/
+theorem C19_hypotheses_satisfiable :
+    let E := edges exInit exOps
+    let R := plainClosure E.length E (plainPairs E)
+    SuffixFree exInit ∧ wellFed exInit exOps = true ∧ topoB [0, 1] exOps = true ∧
+    (∀ c ∈ [0, 1], (exInit.get c).s ≠ []) ∧
+    sibDistinctB E = true ∧ closedB E R = true ∧ noClashB E R = true ∧
+    belowFreeB R [13, 14, 15] = true ∧ belowFreeB R [10, 11] = true ∧ uncountedB (run exInit exOps) [10, 11] = true ∧
+    coveredB [0, 1] exOps [13, 14, 15, 10, 11] = true ∧
+    deliveredConName (run exInit exOps) 13 = "c_3_".toList ∧ deliveredConName (run exInit exOps) 14 = "c_2_".toList ∧
+    deliveredConName (run exInit exOps) 15 = "c_2__2_".toList ∧
+    deliveredVarName (run exInit exOps) 10 = "x".toList ∧ deliveredVarName (run exInit exOps) 11 = "c".toList := by
+  have hd2 : dec 2 = ['2'] := by decide
+  have hd3 : dec 3 = ['3'] := by decide
+  intro E R
+  have hE : E = _ := exEdges
+  refine ⟨?_, ?_, by decide, ?_, ?_, ?_, ?_, ?_, ?_, ?_, by decide, ?_, ?_, ?_, ?_, ?_⟩
+  · intro r r' hr hr' hne
+    rcases exInit_roots r hr with h | h <;> rcases exInit_roots r' hr' with h' | h' <;> subst h <;> subst h'
+    · exact absurd rfl hne
+    · simp [exInit, get_set_eq, get_set_ne, extendsB, isPrefixB]
+    · simp [exInit, get_set_eq, get_set_ne, extendsB, isPrefixB]
+    · exact absurd rfl hne
+  · simp [exInit, exOps, wellFed, step_s, step_n, Op.dst, Op.src, Op.lab, get_set_eq, get_set_ne, empty_get, cntLab, Lab.tok]
+  · intro c hc
+    simp at hc
+    rcases hc with h | h <;> subst h <;> simp [exInit, get_set_eq, get_set_ne]
+  · simp only [hE]; decide
+  · simp only [R, hE]; decide
+  · simp only [R, hE]; decide
+  · simp only [R, hE]; decide
+  · simp only [R, hE]; decide
+  · simp [uncountedB, exInit, exOps, run, step_s, step_n, Op.dst, Op.src, Op.lab, get_set_eq, get_set_ne, empty_get]
+  all_goals
+    simp [exInit, exOps, run, deliveredConName, deliveredVarName, VCStr.counted, cntSuffix, step_s, step_n, Op.dst, Op.src, Op.lab,
+      get_set_eq, get_set_ne, empty_get, cntLab, Lab.tok, hd2, hd3]
+
+/-- `C19_original_kept`: its hypotheses (empty target, named fresh source) hold for the copy of column `x` -/
+example : (exInit.get 10).s = [] ∧ (exInit.get 1).s ≠ [] ∧ (exInit.get 1).n = 0 := by
+  simp [exInit, get_set_eq, get_set_ne, empty_get]
+
+/-! ### the error branch of reading names: a names file whose last line is not terminated -/
+
+theorem scanNames_unterminated : ∀ (data : List Char) (pos start : Nat) (cr : Bool) (acc : List Nat) (last : Nat × Nat),
+    start ≤ pos → data ≠ [] → data.getLast? ≠ some '\n' → scanNames data pos start cr acc last = none := by
+  intro data
+  induction data with
+  | nil => intro _ _ _ _ _ _ h; exact absurd rfl h
+  | cons c cs ih =>
+    intro pos start cr acc last hle _ hlast
+    cases cs with
+    | nil =>
+      have hc : c ≠ '\n' := by intro h; apply hlast; simp [h]
+      simp only [scanNames, hc, if_false]
+      have : ¬ start = pos + 1 := by omega
+      simp [this]
+    | cons c' rest =>
+      have hlast' : (c' :: rest).getLast? ≠ some '\n' := by simpa [List.getLast?_cons_cons] using hlast
+      simp only [scanNames]
+      split
+      · exact ih (pos + 1) (pos + 1) false _ _ (Nat.le_refl _) (by simp) hlast'
+      · exact ih (pos + 1) start _ acc last (by omega) (by simp) hlast'
+
+/-- error branch: if names are to be read (`cvt:names` 1 or 2) and the `.col` file does not end with a newline, no names
+are produced at all — the model reports the `missing newline` error (the real driver then fails with a diagnosis and
+delivers no model; checked by the `nonewline` file variant) -/
+theorem C19_unterminated_names_file_is_error (i : NamesIn) (d : List Char) (hm : i.mode = 1 ∨ i.mode = 2)
+    (hcol : i.col = some d) (hne : d ≠ []) (hlast : d.getLast? ≠ some '\n') :
+    (match readNamesModel i with | .error => true | _ => false) = true := by
+  have hs : readNamesFile d = .missingNewline := by
+    simp [readNamesFile, scanNames_unterminated d 0 0 false [] (0, 0) (Nat.le_refl _) hne hlast]
+  have hf : fileOffsets (some d) = .missingNewline := by
+    cases d with
+    | nil => exact absurd rfl hne
+    | cons c cs => simpa [fileOffsets] using hs
+  rcases hm with h | h <;> simp [readNamesModel, h, hcol, hf]
+
+/-! ### translator ties: the hand model equals the definitions regenerated from the C++ source on every run
+(`translators/gen_names.py` -> `MpVerif/Gen/C19Names.lean`) -/
+
+open MpVerif.Gen in
+theorem gen_dec (k : Nat) : C19Names.dec k = dec k := rfl
+
+/-- `VCStr.counted` is `pre::VCString::MakeCountedName` as translated from `include/mp/valcvt-base.h` -/
+theorem C19_gen_MakeCountedName (v : VCStr) :
+    (v.counted.1, v.counted.2.n) = Gen.C19Names.makeCountedName v.s v.n ∧ v.counted.2.s = v.s := by
+  refine ⟨?_, rfl⟩
+  simp only [VCStr.counted, Gen.C19Names.makeCountedName, cntSuffix, gen_dec]
+  by_cases h : v.n = 0 <;> simp [h, List.append_assoc]
+
+theorem gen_mk_fst (v : VCStr) : (Gen.C19Names.makeCountedName v.s v.n).1 = v.s ++ (cntLab v.n).tok := by
+  rw [← (C19_gen_MakeCountedName v).1]; exact counted_name v
+
+theorem gen_mk_snd (s : Name) (n : Nat) : (Gen.C19Names.makeCountedName s n).2 = n + 1 := rfl
+
+/-- the effect of one `CopyLink` element (`Op.copy`) on target and source is the translated `VCString::operator=` -/
+theorem C19_gen_assign (st : St) (s d : Nat) (hsd : s ≠ d) :
+    let r := Gen.C19Names.assign (st.get d).s (st.get d).n (st.get s).s (st.get s).n
+    (((stepSt st (.copy s d)).get d).s, ((stepSt st (.copy s d)).get d).n) = r.1 ∧
+    (((stepSt st (.copy s d)).get s).s, ((stepSt st (.copy s d)).get s).n) = r.2 := by
+  have hds : ¬ d = s := fun h => hsd h.symm
+  simp only [Gen.C19Names.assign, step_s, step_n, Op.dst, Op.src, Op.lab, gen_mk_fst, gen_mk_snd]
+  by_cases he : (st.get d).s = []
+  · simp [he, hsd, hds]
+  · simp [he, hsd]
+
+/-- one `Distr` iteration (`Op.distr`): `SetVal(i, val)` takes its argument by value (translated copy constructor),
+`SetStr(i, std::move(v))` copy-constructs once more and then assigns (translated `operator=`) -/
+theorem C19_gen_distr (st : St) (s d : Nat) (hsd : s ≠ d) :
+    let c1 := Gen.C19Names.copyCtor (st.get s).s (st.get s).n          -- parameter of SetVal
+    let c2 := Gen.C19Names.copyCtor c1.1.1 c1.1.2                      -- parameter of SetStr
+    let a := Gen.C19Names.assign (st.get d).s (st.get d).n c2.1.1 c2.1.2
+    (((stepSt st (.distr s d)).get d).s, ((stepSt st (.distr s d)).get d).n) = a.1 ∧
+    (((stepSt st (.distr s d)).get s).s, ((stepSt st (.distr s d)).get s).n) = c1.2 := by
+  have hds : ¬ d = s := fun h => hsd h.symm
+  have h0 : ∀ t : Name, (Gen.C19Names.makeCountedName t 0).1 = t := fun t => by simp [Gen.C19Names.makeCountedName]
+  simp only [Gen.C19Names.assign, Gen.C19Names.copyCtor, step_s, step_n, Op.dst, Op.src, Op.lab, gen_mk_fst, gen_mk_snd, h0]
+  by_cases he : (st.get d).s = []
+  · simp [he, hds, hsd]
+  · simp [he, hds, hsd]
+
+/-- variables/objectives are delivered through one more copy construction (translated) -/
+theorem C19_gen_deliveredVarName (st : St) (c : Nat) :
+    deliveredVarName st c = (Gen.C19Names.copyCtor (st.get c).s (st.get c).n).1.1 := by
+  have hmk := (C19_gen_MakeCountedName (st.get c)).1
+  simp [deliveredVarName, Gen.C19Names.copyCtor, ← hmk]
+
+/-- `provName` (file branch with the CR test, generated names) is `NameProvider::name` as translated from `src/nl-reader.cc` -/
+theorem C19_gen_npName (data : List Char) (offs : List Nat) (gen gen2 : Name) (index i2 : Nat) :
+    (provName data offs gen gen2 index i2).text = Gen.C19Names.npName data offs gen gen2 index i2 := by
+  have c13 : Char.ofNat 13 = '\r' := rfl
+  have c32 : Char.ofNat 32 = ' ' := rfl
+  by_cases h1 : index + 1 < offs.length
+  · by_cases h2 : offs.getD (index + 1) 0 - 1 > offs.getD index 0
+    · by_cases h3 : data.getD (offs.getD (index + 1) 0 - 1 - 1) ' ' = '\r'
+      · simp only [provName, fileName, winTestIdx, Gen.C19Names.npName, slice, h1, h2, h3, if_true, FileName.text, c13, c32,
+          decide_true, Bool.true_and, beq_self_eq_true, Bool.and_self]
+      · have h3' : ('\r' == data.getD (offs.getD (index + 1) 0 - 1 - 1) ' ') = false := by
+          rw [beq_eq_false_iff_ne]; exact fun h => h3 h.symm
+        simp only [provName, fileName, winTestIdx, Gen.C19Names.npName, slice, h1, h2, h3, h3', if_true, if_false, FileName.text, c13, c32,
+          decide_true, Bool.true_and, Bool.and_false, Bool.false_eq_true]
+    · simp only [provName, fileName, winTestIdx, Gen.C19Names.npName, slice, h1, h2, if_true, if_false, FileName.text,
+        decide_true, decide_false, Bool.false_and, Bool.false_eq_true]
+  · by_cases h4 : index ≥ i2
+    · simp [provName, fileName, Gen.C19Names.npName, genericName, gen_dec, h1, h4, FileName.text]
+    · simp [provName, fileName, Gen.C19Names.npName, genericName, gen_dec, h1, h4, FileName.text]
+
+/-- `itemName` is the loop body of the name generator in `BasicProblem::item_name` (`src/problem.cc`) -/
+theorem C19_gen_itemGen (stub : Name) (k ksub : Nat) : itemName stub k ksub = Gen.C19Names.itemGen stub k ksub := by
+  simp [itemName, Gen.C19Names.itemGen, gen_dec]
+
+/-- `expandSlack` follows the table extracted from `RangeCon2Slack::PresolveNamesEntry`: statement order, which entry
+index is read and written, and the appended texts are exactly the tokens of the labels `slk` / `equ` -/
+theorem C19_gen_slackRules (cells : Nat → Nat) :
+    expandSlack (cells Gen.C19Names.idxConSrc) (cells Gen.C19Names.idxConTarget) (cells Gen.C19Names.idxVarSlk) =
+      Gen.C19Names.slackRules.map (fun r => Op.sgive (cells r.2.1) (r.2.2 == equSuffix) (cells r.1)) ∧
+    ∀ r ∈ Gen.C19Names.slackRules, (slackLab (r.2.2 == equSuffix)).tok = r.2.2 := by
+  constructor
+  · rfl
+  · decide
+
+/-- structure tie: the classes derived from `BasicLink`, which of them define `PresolveNames` and through which routine;
+the loop nesting of `Many2ManyLink::Distr` (outer: source range, inner: target range = `expandDistr`) and the direction of
+`CopyLink::CopySrcDest`.  The model has exactly the three rules `Op.copy`, `Op.distr`, `Op.sgive`. -/
+theorem C19_gen_linkRules :
+    Gen.C19Names.linkRules =
+      [("BasicIndivEntryLink", "PresolveNamesEntry"), ("BasicStaticIndivEntryLink", "inherits BasicIndivEntryLink"),
+       ("CopyLink", "CopySrcDest"), ("Many2ManyLink", "DistributeFromSrc2Dest"), ("Many2OneLink", "inherits Many2ManyLink"),
+       ("One2ManyLink", "inherits Many2ManyLink"), ("RangeCon2Slack", "inherits BasicStaticIndivEntryLink")] ∧
+    Gen.C19Names.distrLoops = [(0, "ir1"), (1, "ir2")] ∧ Gen.C19Names.copyDirection = "first->second" := by
+  decide
 
 end MpVerif.C19
